@@ -93,12 +93,20 @@ func (s *genState) op(mbs []int) string {
 
 func gen(g *vh.Gen) {
 	pool := fsd.PoolField()
+	lay := "plain"
 	emit := func(cap int, ops []string) {
 		f := "-"
 		if len(ops) > 0 {
 			f = strings.Join(ops, ",")
 		}
-		g.Emit("hist", vh.I(cap), pool, f)
+		g.Emit("hist", vh.I(cap), pool, f, lay)
+	}
+	layouts := []string{"pathlink", "maillink", "bucketlink", "trailing", "dotdot", "relative"}
+	pickLayout := func() string {
+		if g.Chance(0.55) {
+			return "plain"
+		}
+		return layouts[g.Intn(len(layouts))]
 	}
 	a := func(mb, n int) string {
 		return fmt.Sprintf("a.%d.f%d.%d.%s.1", mb, n, 1600000000+n, hex.EncodeToString([]byte(fmt.Sprintf("fixed %d\r\n", n))))
@@ -120,6 +128,12 @@ func gen(g *vh.Gen) {
 	emit(0, []string{a(0, 1), a(0, 2), y(0, 3), a(3, 4), "X", y(5, 5), "t", "v", "X", "v"})
 	emit(0, []string{a(0, 1), a(2, 2), "R", y(6, 3), "t", "v", "R", "t"})
 	emit(2, []string{a(0, 1), y(3, 2), "t", "v", "R", "v"})
+	// the same across the layouts of the storage directory (symlinked path / mail directory / hash buckets, odd paths)
+	for _, l := range layouts {
+		lay = l
+		emit(0, []string{a(0, 1), a(1, 2), a(2, 3), a(3, 4), "X", "v", y(4, 5), "t", "v", "R", "r.1.0", "v", "X", a(3, 6), "v"})
+	}
+	lay = "plain"
 	// the cap shrinks between runs: the next delivery evicts several messages at once
 	emit(0, []string{a(0, 1), a(0, 2), a(0, 3), a(0, 4), "C.2", a(0, 5), "R"})
 	emit(3, []string{a(1, 1), a(1, 2), a(1, 3), "X", "C.1", a(1, 4), "C.0", a(1, 5)})
@@ -175,7 +189,9 @@ func gen(g *vh.Gen) {
 		}
 		ops = append(ops, "R")
 		ops = append(ops, s.afterReopen()...)
+		lay = pickLayout()
 		emit(cap, ops)
+		lay = "plain"
 	}
 	// real restarts; after a restart the first delivery often goes to the mailbox the previous
 	// process delivered to first (same id when it happens within the same second)
@@ -203,6 +219,8 @@ func gen(g *vh.Gen) {
 				}
 			}
 		}
+		lay = pickLayout()
 		emit(cap, ops)
+		lay = "plain"
 	}
 }
